@@ -111,6 +111,20 @@ pub fn coset_prot(p: &MProt) -> Option<coset::ProtectedHeader> {
     }
 }
 
+/// an arbitrary well-formed unprotected header: the structures must not depend on it
+pub fn any_unprotected(ctx: &mut Ctx) -> coset::Header {
+    if ctx.rng.chance(1, 3) {
+        return coset::Header::default();
+    }
+    let o = GenOpts::built();
+    let mut h = gen::gen_header(&mut ctx.rng, &o, 1);
+    if ctx.rng.chance(1, 3) {
+        // key-wrap / direct algorithms, IVs: the parameters a cipher layer might be tempted to look at
+        h.alg = Some(crate::model::MLabel::Int(*ctx.rng.pick(&[-3i64, -4, -5, -6, 1, 3, 10, 24, 0])));
+    }
+    capi::b_header(&h).unwrap_or_default()
+}
+
 pub fn expect_eq(ctx: &mut Ctx, helper: &str, got: &[u8], want: &[u8], family: &str, tuple_desc: &[u8]) {
     ctx.eval();
     ctx.count(&format!("helper:{}", helper));
@@ -198,6 +212,7 @@ fn sig_ctx(c: u8) -> SignatureContext {
 }
 
 pub fn c03_case(ctx: &mut Ctx, body: &MProt, signer: &MProt, aad: &[u8], payload: &[u8], nsigners: usize) {
+    let cu = any_unprotected(ctx);
     let (cb, cs) = match (coset_prot(body), coset_prot(signer)) {
         (Some(a), Some(b)) => (a, b),
         _ => {
@@ -221,8 +236,8 @@ pub fn c03_case(ctx: &mut Ctx, body: &MProt, signer: &MProt, aad: &[u8], payload
     // (2) COSE_Sign1, embedded and detached
     let want1 = model::structure("Signature1", &[&pb, aad, payload]);
     let td1 = tuple_desc("Signature1", &[Some(&pb), None, Some(aad), Some(payload)]);
-    let s1_emb = coset::CoseSign1 { protected: cb.clone(), unprotected: Default::default(), payload: Some(payload.to_vec()), signature: vec![0xAA] };
-    let s1_det = coset::CoseSign1 { protected: cb.clone(), unprotected: Default::default(), payload: None, signature: vec![0xAB] };
+    let s1_emb = coset::CoseSign1 { protected: cb.clone(), unprotected: cu.clone(), payload: Some(payload.to_vec()), signature: vec![0xAA] };
+    let s1_det = coset::CoseSign1 { protected: cb.clone(), unprotected: cu.clone(), payload: None, signature: vec![0xAB] };
     match guard(|| s1_emb.tbs_data(aad)) {
         Ok(got) => expect_eq(ctx, "CoseSign1::tbs_data", &got, &want1, "Sig_structure", &td1),
         Err(p) => unexpected_panic(ctx, "CoseSign1::tbs_data", &p.site()),
@@ -334,13 +349,13 @@ pub fn c03_case(ctx: &mut Ctx, body: &MProt, signer: &MProt, aad: &[u8], payload
     // (4) COSE_Sign: every signer index, embedded and detached, message and builder
     let want_s = model::structure("Signature", &[&pb, &ps, aad, payload]);
     let td_s = tuple_desc("Signature", &[Some(&pb), Some(&ps), Some(aad), Some(payload)]);
-    let other = coset::CoseSignature { protected: Default::default(), unprotected: Default::default(), signature: vec![0x01] };
-    let mine = coset::CoseSignature { protected: cs.clone(), unprotected: Default::default(), signature: vec![0x02] };
+    let other = coset::CoseSignature { protected: Default::default(), unprotected: cu.clone(), signature: vec![0x01] };
+    let mine = coset::CoseSignature { protected: cs.clone(), unprotected: cu.clone(), signature: vec![0x02] };
     let which = ctx.rng.below(nsigners.max(1));
     let mut sigs: Vec<coset::CoseSignature> = (0..nsigners.max(1)).map(|_| other.clone()).collect();
     sigs[which] = mine.clone();
-    let sign_emb = coset::CoseSign { protected: cb.clone(), unprotected: Default::default(), payload: Some(payload.to_vec()), signatures: sigs.clone() };
-    let sign_det = coset::CoseSign { protected: cb.clone(), unprotected: Default::default(), payload: None, signatures: sigs.clone() };
+    let sign_emb = coset::CoseSign { protected: cb.clone(), unprotected: cu.clone(), payload: Some(payload.to_vec()), signatures: sigs.clone() };
+    let sign_det = coset::CoseSign { protected: cb.clone(), unprotected: cu.clone(), payload: None, signatures: sigs.clone() };
     match guard(|| sign_emb.tbs_data(aad, &sign_emb.signatures[which])) {
         Ok(got) => expect_eq(ctx, "CoseSign::tbs_data", &got, &want_s, "Sig_structure", &td_s),
         Err(p) => unexpected_panic(ctx, "CoseSign::tbs_data", &p.site()),
@@ -610,6 +625,7 @@ pub fn unencodable_header_case(ctx: &mut Ctx, family: &str, aad: &[u8], payload:
 // C04
 
 pub fn c04_case(ctx: &mut Ctx, prot: &MProt, aad: &[u8], payload: &[u8]) {
+    let cu = any_unprotected(ctx);
     let cp = match coset_prot(prot) {
         Some(p) => p,
         None => return,
@@ -627,13 +643,13 @@ pub fn c04_case(ctx: &mut Ctx, prot: &MProt, aad: &[u8], payload: &[u8]) {
         // verify_tag on a message (struct literal carrying whatever bytes the crate retained)
         let mut seen: Vec<(Vec<u8>, Vec<u8>)> = Vec::new();
         let r = if is0 {
-            let m = coset::CoseMac0 { protected: cp.clone(), unprotected: Default::default(), payload: Some(payload.to_vec()), tag: vec![0x77] };
+            let m = coset::CoseMac0 { protected: cp.clone(), unprotected: cu.clone(), payload: Some(payload.to_vec()), tag: vec![0x77] };
             guard(|| m.verify_tag(aad, |t, d| -> Result<(), ()> {
                 seen.push((t.to_vec(), d.to_vec()));
                 Ok(())
             }))
         } else {
-            let m = coset::CoseMac { protected: cp.clone(), unprotected: Default::default(), payload: Some(payload.to_vec()), tag: vec![0x77], recipients: vec![] };
+            let m = coset::CoseMac { protected: cp.clone(), unprotected: cu.clone(), payload: Some(payload.to_vec()), tag: vec![0x77], recipients: vec![] };
             guard(|| m.verify_tag(aad, |t, d| -> Result<(), ()> {
                 seen.push((t.to_vec(), d.to_vec()));
                 Ok(())
@@ -653,13 +669,13 @@ pub fn c04_case(ctx: &mut Ctx, prot: &MProt, aad: &[u8], payload: &[u8]) {
         // refusal: verify without payload
         let mut called = false;
         let r = if is0 {
-            let m = coset::CoseMac0 { protected: cp.clone(), unprotected: Default::default(), payload: None, tag: vec![] };
+            let m = coset::CoseMac0 { protected: cp.clone(), unprotected: cu.clone(), payload: None, tag: vec![] };
             guard(|| m.verify_tag(aad, |_t, _d| -> Result<(), ()> {
                 called = true;
                 Ok(())
             })).is_err()
         } else {
-            let m = coset::CoseMac { protected: cp.clone(), unprotected: Default::default(), payload: None, tag: vec![], recipients: vec![] };
+            let m = coset::CoseMac { protected: cp.clone(), unprotected: cu.clone(), payload: None, tag: vec![], recipients: vec![] };
             guard(|| m.verify_tag(aad, |_t, _d| -> Result<(), ()> {
                 called = true;
                 Ok(())
@@ -783,12 +799,14 @@ fn enc_ctx(i: usize) -> (EncryptionContext, &'static str, bool) {
 }
 
 pub fn c05_case(ctx: &mut Ctx, prot: &MProt, aad: &[u8], plaintext: &[u8]) {
+    let cu = any_unprotected(ctx);
     let cp = match coset_prot(prot) {
         Some(p) => p,
         None => return,
     };
     let pb = model::prot_slot(prot);
-    let ct = vec![0xC7, 0x01];
+    // a present ciphertext may be empty
+    let ct: Vec<u8> = if ctx.rng.chance(1, 3) { vec![] } else { vec![0xC7, 0x01] };
     for i in 0..5 {
         let (c, text, is_rcp) = enc_ctx(i);
         let want = model::structure(text, &[&pb, aad]);
@@ -799,7 +817,7 @@ pub fn c05_case(ctx: &mut Ctx, prot: &MProt, aad: &[u8], plaintext: &[u8]) {
             Err(p) => unexpected_panic(ctx, "enc_structure_data", &p.site()),
         }
         // recipient: decrypt with each context (recipient contexts succeed, others must refuse)
-        let rcp = coset::CoseRecipient { protected: cp.clone(), unprotected: Default::default(), ciphertext: Some(ct.clone()), recipients: vec![] };
+        let rcp = coset::CoseRecipient { protected: cp.clone(), unprotected: cu.clone(), ciphertext: Some(ct.clone()), recipients: vec![] };
         let mut seen: Vec<(Vec<u8>, Vec<u8>)> = Vec::new();
         let r = guard(|| rcp.decrypt(c, aad, |x, d| -> Result<Vec<u8>, ()> {
             seen.push((x.to_vec(), d.to_vec()));
@@ -844,13 +862,13 @@ pub fn c05_case(ctx: &mut Ctx, prot: &MProt, aad: &[u8], plaintext: &[u8]) {
         let name = if is0 { "CoseEncrypt0::decrypt" } else { "CoseEncrypt::decrypt" };
         let mut seen: Vec<(Vec<u8>, Vec<u8>)> = Vec::new();
         let r = if is0 {
-            let m = coset::CoseEncrypt0 { protected: cp.clone(), unprotected: Default::default(), ciphertext: Some(ct.clone()) };
+            let m = coset::CoseEncrypt0 { protected: cp.clone(), unprotected: cu.clone(), ciphertext: Some(ct.clone()) };
             guard(|| m.decrypt(aad, |x, d| -> Result<Vec<u8>, ()> {
                 seen.push((x.to_vec(), d.to_vec()));
                 Ok(vec![9])
             }))
         } else {
-            let m = coset::CoseEncrypt { protected: cp.clone(), unprotected: Default::default(), ciphertext: Some(ct.clone()), recipients: vec![] };
+            let m = coset::CoseEncrypt { protected: cp.clone(), unprotected: cu.clone(), ciphertext: Some(ct.clone()), recipients: vec![] };
             guard(|| m.decrypt(aad, |x, d| -> Result<Vec<u8>, ()> {
                 seen.push((x.to_vec(), d.to_vec()));
                 Ok(vec![9])
@@ -869,13 +887,13 @@ pub fn c05_case(ctx: &mut Ctx, prot: &MProt, aad: &[u8], plaintext: &[u8]) {
         // refusal: no ciphertext
         let mut called = false;
         let refused = if is0 {
-            let m = coset::CoseEncrypt0 { protected: cp.clone(), unprotected: Default::default(), ciphertext: None };
+            let m = coset::CoseEncrypt0 { protected: cp.clone(), unprotected: cu.clone(), ciphertext: None };
             guard(|| m.decrypt(aad, |_x, _d| -> Result<Vec<u8>, ()> {
                 called = true;
                 Ok(vec![])
             })).is_err()
         } else {
-            let m = coset::CoseEncrypt { protected: cp.clone(), unprotected: Default::default(), ciphertext: None, recipients: vec![] };
+            let m = coset::CoseEncrypt { protected: cp.clone(), unprotected: cu.clone(), ciphertext: None, recipients: vec![] };
             guard(|| m.decrypt(aad, |_x, _d| -> Result<Vec<u8>, ()> {
                 called = true;
                 Ok(vec![])
@@ -927,7 +945,7 @@ pub fn c05_case(ctx: &mut Ctx, prot: &MProt, aad: &[u8], plaintext: &[u8]) {
         }
     }
     // recipient without ciphertext must refuse
-    let rcp = coset::CoseRecipient { protected: cp, unprotected: Default::default(), ciphertext: None, recipients: vec![] };
+    let rcp = coset::CoseRecipient { protected: cp, unprotected: cu.clone(), ciphertext: None, recipients: vec![] };
     let mut called = false;
     let r = guard(|| rcp.decrypt(EncryptionContext::EncRecipient, aad, |_x, _d| -> Result<Vec<u8>, ()> {
         called = true;
@@ -1151,6 +1169,223 @@ pub fn built_then_edited_case(ctx: &mut Ctx, family: &str, prot: &MProt, aad: &[
                 }
                 let name = format!("built by {} builder::{}, edited, decrypt", text, if fallible { "try_create_ciphertext" } else { "create_ciphertext" });
                 expect_eq(ctx, &name, &seen.unwrap_or_default(), &want, "Enc_structure", &td);
+            }
+        }
+    }
+}
+
+// ---------------------------------------------------------------------------------------------
+// protected(h1) .. create .. protected(h2) .. create on one builder: the second creation must cover h2
+
+pub fn reprotect_case(ctx: &mut Ctx, family: &str, p1: &MProt, p2: &MProt, aad: &[u8], payload: &[u8]) {
+    if p1.bytes.is_some() || p2.bytes.is_some() {
+        return;
+    }
+    let (h1, h2) = match (capi::b_header(&p1.header), capi::b_header(&p2.header)) {
+        (Some(a), Some(b)) => (a, b),
+        _ => return,
+    };
+    let s2 = model::prot_slot(p2);
+    let fallible = ctx.rng.coin();
+    let mut seen: Vec<Vec<u8>> = Vec::new();
+    match family {
+        "Sig_structure" => {
+            let want = model::structure("Signature1", &[&s2, aad, payload]);
+            let r = guard(|| {
+                let b = coset::CoseSign1Builder::new().protected(h1.clone()).payload(payload.to_vec()).create_signature(aad, |_d| vec![1]).protected(h2.clone());
+                if fallible {
+                    b.try_create_signature(aad, |d| -> Result<Vec<u8>, ()> {
+                        seen.push(d.to_vec());
+                        Ok(vec![2])
+                    }).map(|b| b.build()).ok()
+                } else {
+                    Some(b.create_signature(aad, |d| {
+                        seen.push(d.to_vec());
+                        vec![2]
+                    }).build())
+                }
+            });
+            if let Ok(Some(m)) = r {
+                expect_eq(ctx, "CoseSign1Builder: protected, create, protected, create", &seen.pop().unwrap_or_default(), &want, "Sig_structure", &tuple_desc("Signature1", &[Some(&s2), None, Some(aad), Some(payload)]));
+                let mut v = None;
+                let _ = guard(|| m.verify_signature(aad, |_s, d| -> Result<(), ()> {
+                    v = Some(d.to_vec());
+                    Ok(())
+                }));
+                expect_eq(ctx, "CoseSign1Builder: protected, create, protected, create; verify", &v.unwrap_or_default(), &want, "Sig_structure", &tuple_desc("Signature1", &[Some(&s2), None, Some(aad), Some(payload)]));
+            }
+            // COSE_Sign: a signer added before the body header changes, one after
+            let sig = coset::CoseSignature::default();
+            let want_s = model::structure("Signature", &[&s2, &[], aad, payload]);
+            let mut seen2: Vec<Vec<u8>> = Vec::new();
+            let r = guard(|| coset::CoseSignBuilder::new().protected(h1.clone()).payload(payload.to_vec()).add_created_signature(sig.clone(), aad, |_d| vec![1]).protected(h2.clone()).add_created_signature(sig.clone(), aad, |d| {
+                seen2.push(d.to_vec());
+                vec![2]
+            }).build());
+            if r.is_ok() {
+                expect_eq(ctx, "CoseSignBuilder: protected, add_created, protected, add_created", &seen2.pop().unwrap_or_default(), &want_s, "Sig_structure", &tuple_desc("Signature", &[Some(&s2), Some(&[]), Some(aad), Some(payload)]));
+            }
+        }
+        "MAC_structure" => {
+            for is0 in [true, false] {
+                let text = if is0 { "MAC0" } else { "MAC" };
+                let want = model::structure(text, &[&s2, aad, payload]);
+                let td = tuple_desc(text, &[Some(&s2), Some(aad), Some(payload)]);
+                let mut seen: Vec<Vec<u8>> = Vec::new();
+                let mut v = None;
+                let _ = guard(|| {
+                    if is0 {
+                        let m = coset::CoseMac0Builder::new().protected(h1.clone()).payload(payload.to_vec()).create_tag(aad, |_d| vec![1]).protected(h2.clone()).create_tag(aad, |d| {
+                            seen.push(d.to_vec());
+                            vec![2]
+                        }).build();
+                        let _ = m.verify_tag(aad, |_t, d| -> Result<(), ()> {
+                            v = Some(d.to_vec());
+                            Ok(())
+                        });
+                    } else {
+                        let m = coset::CoseMacBuilder::new().protected(h1.clone()).payload(payload.to_vec()).try_create_tag(aad, |_d| -> Result<Vec<u8>, ()> { Ok(vec![1]) }).unwrap().protected(h2.clone()).create_tag(aad, |d| {
+                            seen.push(d.to_vec());
+                            vec![2]
+                        }).build();
+                        let _ = m.verify_tag(aad, |_t, d| -> Result<(), ()> {
+                            v = Some(d.to_vec());
+                            Ok(())
+                        });
+                    }
+                });
+                let name = format!("Cose{}Builder: protected, create_tag, protected, create_tag", if is0 { "Mac0" } else { "Mac" });
+                expect_eq(ctx, &name, &seen.pop().unwrap_or_default(), &want, "MAC_structure", &td);
+                expect_eq(ctx, &format!("{}; verify_tag", name), &v.unwrap_or_default(), &want, "MAC_structure", &td);
+            }
+        }
+        _ => {
+            for kind in 0..3 {
+                let (text, c) = match kind {
+                    0 => ("Encrypt", EncryptionContext::CoseEncrypt),
+                    1 => ("Encrypt0", EncryptionContext::CoseEncrypt0),
+                    _ => ("Rec_Recipient", EncryptionContext::RecRecipient),
+                };
+                let want = model::structure(text, &[&s2, aad]);
+                let td = tuple_desc(text, &[Some(&s2), Some(aad)]);
+                let mut seen: Vec<Vec<u8>> = Vec::new();
+                let mut v = None;
+                let _ = guard(|| match kind {
+                    0 => {
+                        let m = coset::CoseEncryptBuilder::new().protected(h1.clone()).create_ciphertext(payload, aad, |_p, _d| vec![1]).protected(h2.clone()).create_ciphertext(payload, aad, |_p, d| {
+                            seen.push(d.to_vec());
+                            vec![2]
+                        }).build();
+                        let _ = m.decrypt(aad, |_c, d| -> Result<Vec<u8>, ()> {
+                            v = Some(d.to_vec());
+                            Ok(vec![])
+                        });
+                    }
+                    1 => {
+                        let m = coset::CoseEncrypt0Builder::new().protected(h1.clone()).create_ciphertext(payload, aad, |_p, _d| vec![1]).protected(h2.clone()).try_create_ciphertext(payload, aad, |_p, d| -> Result<Vec<u8>, ()> {
+                            seen.push(d.to_vec());
+                            Ok(vec![2])
+                        }).unwrap().build();
+                        let _ = m.decrypt(aad, |_c, d| -> Result<Vec<u8>, ()> {
+                            v = Some(d.to_vec());
+                            Ok(vec![])
+                        });
+                    }
+                    _ => {
+                        let m = coset::CoseRecipientBuilder::new().protected(h1.clone()).create_ciphertext(c, payload, aad, |_p, _d| vec![1]).protected(h2.clone()).create_ciphertext(c, payload, aad, |_p, d| {
+                            seen.push(d.to_vec());
+                            vec![2]
+                        }).build();
+                        let _ = m.decrypt(c, aad, |_c, d| -> Result<Vec<u8>, ()> {
+                            v = Some(d.to_vec());
+                            Ok(vec![])
+                        });
+                    }
+                });
+                let name = format!("{} builder: protected, create_ciphertext, protected, create_ciphertext", text);
+                expect_eq(ctx, &name, &seen.pop().unwrap_or_default(), &want, "Enc_structure", &td);
+                expect_eq(ctx, &format!("{}; decrypt", name), &v.unwrap_or_default(), &want, "Enc_structure", &td);
+            }
+        }
+    }
+}
+
+// ---------------------------------------------------------------------------------------------
+// A decoded message whose parsed header is edited WITHOUT dropping the retained bytes: the received
+// bytes stay authoritative (that is what `original_data` is for), whatever they are - also h''.
+
+pub fn decoded_edited_keeping_bytes_case(ctx: &mut Ctx, family: &str, prot: &MProt, aad: &[u8], payload: &[u8]) {
+    let pb = match &prot.bytes {
+        Some(b) => b.clone(),
+        None => return,
+    };
+    let edit = |p: &mut coset::ProtectedHeader| {
+        p.header.key_id.push(0x5a);
+        p.header.rest.push((coset::Label::Int(-70011), coset::cbor::value::Value::Null));
+    };
+    match family {
+        "Sig_structure" => {
+            let b = rcbor::det(&Item::Array(vec![Item::Bytes(pb.clone()), Item::Map(vec![]), Item::Bytes(payload.to_vec()), Item::Bytes(vec![1])]));
+            if let Ok(Ok(mut m)) = guard(|| coset::CoseSign1::from_slice(&b)) {
+                edit(&mut m.protected);
+                let want = model::structure("Signature1", &[&pb, aad, payload]);
+                let got = guard(|| m.tbs_data(aad)).unwrap_or_default();
+                expect_eq(ctx, "decoded CoseSign1, header edited keeping original_data, tbs_data", &got, &want, "Sig_structure", &tuple_desc("Signature1", &[Some(&pb), None, Some(aad), Some(payload)]));
+            }
+        }
+        "MAC_structure" => {
+            for is0 in [true, false] {
+                let text = if is0 { "MAC0" } else { "MAC" };
+                let mut a = vec![Item::Bytes(pb.clone()), Item::Map(vec![]), Item::Bytes(payload.to_vec()), Item::Bytes(vec![1])];
+                if !is0 {
+                    a.push(Item::Array(vec![]));
+                }
+                let b = rcbor::det(&Item::Array(a));
+                let want = model::structure(text, &[&pb, aad, payload]);
+                let mut v = None;
+                if is0 {
+                    if let Ok(Ok(mut m)) = guard(|| coset::CoseMac0::from_slice(&b)) {
+                        edit(&mut m.protected);
+                        let _ = guard(|| m.verify_tag(aad, |_t, d| -> Result<(), ()> {
+                            v = Some(d.to_vec());
+                            Ok(())
+                        }));
+                    } else {
+                        continue;
+                    }
+                } else if let Ok(Ok(mut m)) = guard(|| coset::CoseMac::from_slice(&b)) {
+                    edit(&mut m.protected);
+                    let _ = guard(|| m.verify_tag(aad, |_t, d| -> Result<(), ()> {
+                        v = Some(d.to_vec());
+                        Ok(())
+                    }));
+                } else {
+                    continue;
+                }
+                expect_eq(ctx, &format!("decoded Cose{}, header edited keeping original_data, verify_tag", if is0 { "Mac0" } else { "Mac" }), &v.unwrap_or_default(), &want, "MAC_structure", &tuple_desc(text, &[Some(&pb), Some(aad), Some(payload)]));
+            }
+        }
+        _ => {
+            let b = rcbor::det(&Item::Array(vec![Item::Bytes(pb.clone()), Item::Map(vec![]), Item::Bytes(vec![7])]));
+            let want0 = model::structure("Encrypt0", &[&pb, aad]);
+            if let Ok(Ok(mut m)) = guard(|| coset::CoseEncrypt0::from_slice(&b)) {
+                edit(&mut m.protected);
+                let mut v = None;
+                let _ = guard(|| m.decrypt(aad, |_c, d| -> Result<Vec<u8>, ()> {
+                    v = Some(d.to_vec());
+                    Ok(vec![])
+                }));
+                expect_eq(ctx, "decoded CoseEncrypt0, header edited keeping original_data, decrypt", &v.unwrap_or_default(), &want0, "Enc_structure", &tuple_desc("Encrypt0", &[Some(&pb), Some(aad)]));
+            }
+            let wantr = model::structure("Enc_Recipient", &[&pb, aad]);
+            if let Ok(Ok(mut m)) = guard(|| coset::CoseRecipient::from_slice(&b)) {
+                edit(&mut m.protected);
+                let mut v = None;
+                let _ = guard(|| m.decrypt(EncryptionContext::EncRecipient, aad, |_c, d| -> Result<Vec<u8>, ()> {
+                    v = Some(d.to_vec());
+                    Ok(vec![])
+                }));
+                expect_eq(ctx, "decoded CoseRecipient, header edited keeping original_data, decrypt", &v.unwrap_or_default(), &wantr, "Enc_structure", &tuple_desc("Enc_Recipient", &[Some(&pb), Some(aad)]));
             }
         }
     }
